@@ -163,7 +163,13 @@ CPLX_SPECIAL = [1, -1, 1j, -1j, complex(0.6, 0.8), complex(-0.8, 0.6), complex(0
 
 def special_cplx_matrix(rng, n, tries=40):
     """n x n matrix with entries from CPLX_SPECIAL, nonsingular (exact test); None if none was found"""
+    import numpy as np
     for _ in range(tries):
         A = [complex(CPLX_SPECIAL[rng.below(len(CPLX_SPECIAL))]) for _ in range(n * n)]
-        if cdet_exact(A, n) != (0, 0): return A
+        if cdet_exact(A, n) == (0, 0): continue
+        # 0.6 and 0.8 are not binary fractions: [[0.6-0.8i, 1], [1, 0.6+0.8i]] has the exact determinant 1e-17, not 0.  Such a
+        # matrix is nonsingular only on paper; the properties speak of rounding accuracy relative to the condition number, so
+        # keep the well-conditioned ones (found by the thorough tier of C02: a NaN inverse on the unchanged source)
+        if np.linalg.cond(np.array(A, dtype=complex).reshape(n, n)) > 1e6: continue
+        return A
     return None
